@@ -44,7 +44,14 @@ impl OpeningHoursExpression {
             return kind == RuleKind::Closed;
         };
 
-        tail.kind == kind && tail.is_constant()
+        // A fallback rule only applies on days that previous rules left uncovered, so it can only
+        // be trusted to take over everything if all previous rules are closed.
+        let tail_takes_all = tail.operator != RuleOperator::Fallback
+            || (self.rules.iter())
+                .take_while(|rs| !std::ptr::eq(*rs, tail))
+                .all(|rs| rs.kind == RuleKind::Closed);
+
+        tail.kind == kind && tail.is_constant() && tail_takes_all
     }
 
     /// Convert the expression into a normalized form. It will not affect the meaning of the
